@@ -6,8 +6,8 @@ naive specification on EVERY window `[start, end)` of every memory region, inclu
 C09.agree: the slice forms `memchr cfg ..` return the same specified value for every build /
 CPU configuration.
 
-The SWAR backend's correctness is taken from `Proofs/Swar.lean` through the structure `SwarOk`
-(exactly the five statements used).
+The SWAR backend's correctness comes from `Proofs/Swar.lean`; the structure `SwarOk` lists
+exactly the five statements used and `swarOk` discharges it.
 -/
 import MemchrModel.Base.Lemmas
 import MemchrModel.Spec.Byte
@@ -16,6 +16,7 @@ import MemchrModel.Proofs.MemchrGeneric
 import MemchrModel.Proofs.Sensible
 import MemchrModel.Proofs.Neon
 import MemchrModel.Proofs.SwarLemmas
+import MemchrModel.Proofs.Swar
 
 namespace Memchr.Api
 
@@ -73,6 +74,18 @@ structure SwarOk : Prop where
   multi_rfind : ∀ (ns : Needles) (m : Mem) (start end_ : Nat) (c : Ctr),
     m.base ≤ start → end_ ≤ m.base + m.bytes.size →
     ∃ c', Swar.Multi.rfindRaw ns m start end_ c = .ok (specLast ns m start end_) c'
+
+theorem swarOk : SwarOk where
+  one_find := fun n1 m start end_ c hs he =>
+    Swar.One.findRaw_correct n1 m start end_ c (fun _ => ⟨hs, he⟩)
+  one_rfind := fun n1 m start end_ c hs he =>
+    Swar.One.rfindRaw_correct n1 m start end_ c (fun _ => ⟨hs, he⟩)
+  one_count := fun n1 m start end_ c hs he =>
+    Swar.One.countRaw_correct n1 m start end_ c (fun _ => ⟨hs, he⟩)
+  multi_find := fun ns m start end_ c hs he =>
+    Swar.Multi.findRaw_correct ns m start end_ c (fun _ => ⟨hs, he⟩)
+  multi_rfind := fun ns m start end_ c hs he =>
+    Swar.Multi.rfindRaw_correct ns m start end_ c (fun _ => ⟨hs, he⟩)
 
 /-! ### 1a. single-vector wrappers -/
 
@@ -202,7 +215,7 @@ theorem avx2Count_correct (n1 : UInt8) (m : Mem)
 
 /-! ### 1c. every backend -/
 
-theorem swarFind_correct (S : SwarOk) (ns : Needles) (rev : Bool) (m : Mem)
+theorem swarFind_correct (ns : Needles) (rev : Bool) (m : Mem)
     (start end_ : Nat) (c : Ctr) (hs : m.base ≤ start) (he : end_ ≤ m.base + m.bytes.size) :
     ∃ c', swarFind ns rev m start end_ c = .ok (specFind ns rev m start end_) c' := by
   obtain ⟨n1, rest⟩ := ns
@@ -210,21 +223,21 @@ theorem swarFind_correct (S : SwarOk) (ns : Needles) (rev : Bool) (m : Mem)
   cases rest with
   | nil =>
     cases rev with
-    | false => exact S.one_find n1 m start end_ c hs he
-    | true => exact S.one_rfind n1 m start end_ c hs he
+    | false => exact swarOk.one_find n1 m start end_ c hs he
+    | true => exact swarOk.one_rfind n1 m start end_ c hs he
   | cons n2 rest =>
     cases rev with
-    | false => exact S.multi_find _ m start end_ c hs he
-    | true => exact S.multi_rfind _ m start end_ c hs he
+    | false => exact swarOk.multi_find _ m start end_ c hs he
+    | true => exact swarOk.multi_rfind _ m start end_ c hs he
 
 /-- C01.raw (`rev = false`) and C02.raw (`rev = true`): every backend's `find_raw` /
 `rfind_raw` returns exactly the first / last needle position of the window, without fault, for
 every window inside the region (also empty, reversed and sub-vector windows). -/
-theorem rawFind_correct (S : SwarOk) (b : Backend) (ns : Needles) (rev : Bool) (m : Mem)
+theorem rawFind_correct (b : Backend) (ns : Needles) (rev : Bool) (m : Mem)
     (start end_ : Nat) (c : Ctr) (hs : m.base ≤ start) (he : end_ ≤ m.base + m.bytes.size) :
     ∃ c', rawFind b ns rev m start end_ c = .ok (specFind ns rev m start end_) c' := by
   cases b with
-  | swar => exact swarFind_correct S ns rev m start end_ c hs he
+  | swar => exact swarFind_correct ns rev m start end_ c hs he
   | avx2 =>
     cases rev with
     | false => exact avx2Find_correct ns m start end_ c hs he
@@ -243,11 +256,11 @@ theorem rawFind_correct (S : SwarOk) (b : Backend) (ns : Needles) (rev : Bool) (
     | true => exact wrapRfind_correct _ Sensible.lawful_simd128 ns m start end_ c hs he
 
 /-- C07.raw -/
-theorem rawCount_correct (S : SwarOk) (b : Backend) (n1 : UInt8) (m : Mem)
+theorem rawCount_correct (b : Backend) (n1 : UInt8) (m : Mem)
     (start end_ : Nat) (c : Ctr) (hs : m.base ≤ start) (he : end_ ≤ m.base + m.bytes.size) :
     ∃ c', rawCount b n1 m start end_ c = .ok (specCount n1 m start end_) c' := by
   cases b with
-  | swar => exact S.one_count n1 m start end_ c hs he
+  | swar => exact swarOk.one_count n1 m start end_ c hs he
   | avx2 => exact avx2Count_correct n1 m start end_ c hs he
   | sse2 => exact wrapCount_correct _ Sensible.lawful_sse2 n1 m start end_ c hs he
   | neon => exact wrapCount_correct _ Neon.lawful n1 m start end_ c hs he
@@ -354,46 +367,48 @@ theorem searchSliceWithRaw_correct (hay : Slice) (hv : hay.Valid)
     simp only [Option.map_some]
     rw [Mem.distance_ok hay.mem _ (hay.ptr + i) hay.ptr (by simp [Slice.ptr]) (by omega)
       (by simp [Slice.ptr]; omega)]
-    exact ⟨c', by simp [M.pure]⟩
+    have e : hay.ptr + i - hay.ptr = i := by omega
+    rw [e]
+    exact ⟨c', rfl⟩
 
 /-- the wrapper modules' `find` / `rfind` on a slice -/
-theorem sliceFind_correct (S : SwarOk) (b : Backend) (ns : Needles) (rev : Bool) (hay : Slice)
+theorem sliceFind_correct (b : Backend) (ns : Needles) (rev : Bool) (hay : Slice)
     (hv : hay.Valid) (c : Ctr) :
     ∃ c', sliceFind b ns rev hay c = .ok (specIdx ns rev hay) c' := by
   have hv' : hay.off + hay.len ≤ hay.mem.bytes.size := hv
   apply searchSliceWithRaw_correct hay hv _ _ c
   · rw [← specFind_slice]
-    exact rawFind_correct S b ns rev hay.mem _ _ c (by simp [Slice.ptr])
+    exact rawFind_correct b ns rev hay.mem _ _ c (by simp [Slice.ptr])
       (by simp [Slice.ptr]; omega)
   · intro i hi; exact specIdx_lt hi
 
-theorem sliceCount_correct (S : SwarOk) (b : Backend) (n1 : UInt8) (hay : Slice)
+theorem sliceCount_correct (b : Backend) (n1 : UInt8) (hay : Slice)
     (hv : hay.Valid) (c : Ctr) :
     ∃ c', sliceCount b n1 hay c =
       .ok (Spec.countP (· == n1) (hay.mem.window hay.ptr hay.len)) c' := by
   have hv' : hay.off + hay.len ≤ hay.mem.bytes.size := hv
   unfold sliceCount
-  simp only [bind, pure]
+  simp only [bind]
   rw [Mem.padd_ok hay.mem _ hay.ptr hay.len (by simp [Slice.ptr]) (by simp [Slice.ptr]; omega)]
   simp only [pure, M.bind, M.pure]
-  have := rawCount_correct S b n1 hay.mem hay.ptr (hay.ptr + hay.len) c (by simp [Slice.ptr])
+  have := rawCount_correct b n1 hay.mem hay.ptr (hay.ptr + hay.len) c (by simp [Slice.ptr])
     (by simp [Slice.ptr]; omega)
   unfold specCount at this
   rw [Nat.add_sub_cancel_left] at this
   exact this
 
 /-- the public `memchr` / `memrchr` / `memchr2` / ... for a given configuration -/
-theorem memchr_correct (S : SwarOk) (cfg : Cfg) (ns : Needles) (rev : Bool) (hay : Slice)
+theorem memchr_correct (cfg : Cfg) (ns : Needles) (rev : Bool) (hay : Slice)
     (hv : hay.Valid) (c : Ctr) :
     ∃ c', memchr cfg ns rev hay c = .ok (specIdx ns rev hay) c' := by
-  have h := sliceFind_correct S (select cfg) ns rev hay hv c
+  have h := sliceFind_correct (select cfg) ns rev hay hv c
   unfold sliceFind at h
   unfold memchr
   have e : memchrRaw cfg ns rev hay.mem = rawFind (select cfg) ns rev hay.mem := by
     funext s e; exact memchrRaw_eq_select cfg ns rev hay.mem s e
   rw [e]; exact h
 
-theorem count_correct (S : SwarOk) (cfg : Cfg) (n1 : UInt8) (hay : Slice)
+theorem count_correct (cfg : Cfg) (n1 : UInt8) (hay : Slice)
     (hv : hay.Valid) (c : Ctr) :
     ∃ c', count cfg n1 hay c =
       .ok (Spec.countP (· == n1) (hay.mem.window hay.ptr hay.len)) c' := by
@@ -401,7 +416,7 @@ theorem count_correct (S : SwarOk) (cfg : Cfg) (n1 : UInt8) (hay : Slice)
   unfold count Iter.count Iter.new
   simp only []
   rw [countRaw_eq_select]
-  have := rawCount_correct S (select cfg) n1 hay.mem hay.ptr (hay.ptr + hay.len) c
+  have := rawCount_correct (select cfg) n1 hay.mem hay.ptr (hay.ptr + hay.len) c
     (by simp [Slice.ptr]) (by simp [Slice.ptr]; omega)
   unfold specCount at this
   rw [Nat.add_sub_cancel_left] at this
@@ -410,20 +425,20 @@ theorem count_correct (S : SwarOk) (cfg : Cfg) (n1 : UInt8) (hay : Slice)
 /-- C09.agree: any two build / CPU configurations return the same value (the specified one,
 an index `< hay.len` when present), for forward and reverse search with 1-3 (indeed any
 number of) needles, on every valid slice; none of them faults. -/
-theorem C09_agree (S : SwarOk) (cfg1 cfg2 : Cfg) (ns : Needles) (rev : Bool) (hay : Slice)
+theorem C09_agree (cfg1 cfg2 : Cfg) (ns : Needles) (rev : Bool) (hay : Slice)
     (hv : hay.Valid) (c1 c2 : Ctr) :
     ∃ v c1' c2', memchr cfg1 ns rev hay c1 = .ok v c1' ∧ memchr cfg2 ns rev hay c2 = .ok v c2' ∧
       v = specIdx ns rev hay ∧ ∀ i, v = some i → i < hay.len := by
-  obtain ⟨c1', h1⟩ := memchr_correct S cfg1 ns rev hay hv c1
-  obtain ⟨c2', h2⟩ := memchr_correct S cfg2 ns rev hay hv c2
+  obtain ⟨c1', h1⟩ := memchr_correct cfg1 ns rev hay hv c1
+  obtain ⟨c2', h2⟩ := memchr_correct cfg2 ns rev hay hv c2
   exact ⟨_, c1', c2', h1, h2, rfl, fun i hi => specIdx_lt hi⟩
 
-theorem C09_agree_count (S : SwarOk) (cfg1 cfg2 : Cfg) (n1 : UInt8) (hay : Slice)
+theorem C09_agree_count (cfg1 cfg2 : Cfg) (n1 : UInt8) (hay : Slice)
     (hv : hay.Valid) (c1 c2 : Ctr) :
     ∃ v c1' c2', count cfg1 n1 hay c1 = .ok v c1' ∧ count cfg2 n1 hay c2 = .ok v c2' ∧
       v = Spec.countP (· == n1) (hay.mem.window hay.ptr hay.len) := by
-  obtain ⟨c1', h1⟩ := count_correct S cfg1 n1 hay hv c1
-  obtain ⟨c2', h2⟩ := count_correct S cfg2 n1 hay hv c2
+  obtain ⟨c1', h1⟩ := count_correct cfg1 n1 hay hv c1
+  obtain ⟨c2', h2⟩ := count_correct cfg2 n1 hay hv c2
   exact ⟨_, c1', c2', h1, h2, rfl⟩
 
 /-- a valid, non-trivial slice: bytes 3..13 of a 40-byte region at an odd address -/
